@@ -23,9 +23,9 @@ DEMO=$(ls $SRC/demo/*_test.go 2>/dev/null | head -1)
 REL=$(head -5 "$DEMO" | grep -o 'pkg/[a-z0-9_]*/[A-Za-z0-9_]*_test\.go' | head -1)
 PKG=$(dirname "$REL")
 cp "$DEMO" "$WT/$REL"
-DW=pass; go test -vet=off -count=1 -run 'TestZzSeed' ./$PKG/ > /tmp/keepseed.$TAG.demo_with 2>&1 || DW=FAIL
+DW=pass; go test -vet=off -count=1 -run 'Seed' ./$PKG/ > /tmp/keepseed.$TAG.demo_with 2>&1 || DW=FAIL
 git stash -q -- $(git diff --name-only) 2>/dev/null || git checkout -q -- $(git diff --name-only)
-DWO=pass; go test -vet=off -count=1 -run 'TestZzSeed' ./$PKG/ > /tmp/keepseed.$TAG.demo_without 2>&1 || DWO=FAIL
+DWO=pass; go test -vet=off -count=1 -run 'Seed' ./$PKG/ > /tmp/keepseed.$TAG.demo_without 2>&1 || DWO=FAIL
 echo "$TAG: suite_with_change=$SUITE demo_with_change=$DW demo_without_change=$DWO"
 if [ "$SUITE" != pass ] || [ "$DW" != FAIL ] || [ "$DWO" != pass ]; then echo "$TAG: NOT a valid seeded change, not kept"; tail -5 /tmp/keepseed.$TAG.suite /tmp/keepseed.$TAG.demo_with /tmp/keepseed.$TAG.demo_without; exit 4; fi
 mkdir -p $DST/demo
@@ -50,7 +50,7 @@ meta={"tag":tag,"property":pid,"origin":"fresh sub-agent given only the property
  "confirmed_by_us":{"repo_head":__import__('subprocess').check_output(['git','-C','/repo','rev-parse','--short','HEAD']).decode().strip(),
    "suite_with_change":suite,"demo_with_change":dw,"demo_without_change":dwo,"demo_file":rel,
    "commands":["go build ./... && go test -vet=off -count=1 ./...  (scratch worktree, change applied)",
-               "go test -vet=off -count=1 -run TestZzSeed ./"+rel.rsplit('/',1)[0]+"/  (with and without the change)",
+               "go test -vet=off -count=1 -run Seed ./"+rel.rsplit('/',1)[0]+"/  (with and without the change)",
                "tools/tryseed.sh seeded/"+tag+"/patch.diff <check> quick  (git -C /repo apply; ./vcheck; git reset --hard)"]},
  "our_checks":json.loads("["+res+"]")}
 json.dump(meta,open(f'/verif/seeded/{tag}/meta.json','w'),indent=1)
